@@ -603,6 +603,11 @@ func (s *Session) nextDeadline() time.Time {
 
 // Send requested message, store errors in Session.sendError
 func (s *Session) send(msg string) {
+	if s.sendError != nil {
+		// The connection already failed; every further line of a multi-line response would wait
+		// for the full timeout again.
+		return
+	}
 	if err := s.conn.SetWriteDeadline(s.nextDeadline()); err != nil {
 		s.sendError = err
 		return
